@@ -32,6 +32,9 @@ inductive Shape where
   | readBeforeAcquire
   /-- the write / `Save` happens after `ReleaseTreasureGuard` -/
   | writeAfterRelease
+  /-- (part of) the response is read from the object after `Save` — i.e., with `releaseInSave`, after the guard
+      was released (`createMetaForIncrementResponse(obj)` behind `obj.Save(id)`) -/
+  | respAfterSave
   deriving DecidableEq, Repr
 
 structure Cfg where
@@ -157,11 +160,42 @@ def stepWriteLate (cfg : Cfg) (op : Nat → Int → Int) (s : St) (t : Nat) : Op
                   log := s.log ++ [{ tid := t, sid := ts.sid, resp := v, ts := tick }], clock := tick }
   | _ => none
 
+/-- defective: the response is read back from the object after `Save` (pc 4 → 6); the write itself (pc 2 → 3) is
+    guarded.  The logged response is whatever the object holds at that moment. -/
+def stepRespLate (cfg : Cfg) (op : Nat → Int → Int) (s : St) (t : Nat) : Option St :=
+  let ts := s.th t
+  let tick := s.clock + 1
+  match ts.pc with
+  | 0 =>
+    let g' := enqueue s.g
+    some { s with g := g', th := setT s.th t { ts with pc := 1, sid := g'.nextSid, inv := tick }, clock := tick }
+  | 1 =>
+    if s.g.grants.contains ts.sid then
+      some { s with th := setT s.th t { ts with pc := 2, loc := s.val }, clock := tick }
+    else none
+  | 2 => some { s with val := op t ts.loc, th := setT s.th t { ts with pc := 3, loc := tick }, clock := tick }
+  | 3 =>
+    if cfg.releaseInSave then
+      match release cfg s.g ts.sid with
+      | some g' => some { s with g := g', th := setT s.th t { ts with pc := 4 }, clock := tick }
+      | none => none
+    else some { s with th := setT s.th t { ts with pc := 4 }, clock := tick }
+  | 4 =>
+    -- `loc` kept the clock value of the write (the entry's position in commit order)
+    some { s with th := setT s.th t { ts with pc := 6 },
+                  log := s.log ++ [{ tid := t, sid := ts.sid, resp := s.val, ts := ts.loc.toNat }], clock := tick }
+  | 6 =>
+    match release cfg s.g ts.sid with
+    | some g' => some { s with g := g', th := setT s.th t { ts with pc := 5, ack := tick }, clock := tick }
+    | none => none
+  | _ => none
+
 def stepTh (cfg : Cfg) (op : Nat → Int → Int) (s : St) (t : Nat) : Option St :=
   match cfg.shape with
   | .guarded => stepGuarded cfg op s t
   | .readBeforeAcquire => stepReadFirst cfg op s t
   | .writeAfterRelease => stepWriteLate cfg op s t
+  | .respAfterSave => stepRespLate cfg op s t
 
 def step (cfg : Cfg) (op : Nat → Int → Int) (s : St) : Act → Option St
   | .th t => stepTh cfg op s t
